@@ -80,11 +80,17 @@ Section Obs.
 
   Definition step_obs := (list (file * list err) * option (list (file * list err)) * list (file * list err))%type.
 
+  (* what the harness does for the "fresh" part: a server started on the disk of w, then told (didOpen) about the open
+     documents outside the workspace, in file order *)
+  Definition fresh_run (w : world toyA) : list (file * list err) :=
+    let opens := filter (fun f => negb (toy_in_dir f) && ahas (ebuf w) f) toyU in
+    nonempty_over (view (snd (run toyA fx (disk w) (map (@AOpen toyA) opens)))).
+
   Fixpoint obs_steps (md : mode) (w : world toyA) (v : emap) (h : list (action toyA)) : list step_obs :=
     let last := is_nil h in
     let want := is_nil (dirty w) && match md with MAll => true | MEnd => last | MNone => false end in
     let here := (nonempty_over (vget v),
-                 (if want then Some (nonempty_over (fresh_view toyA fx (disk w))) else None),
+                 (if want then Some (fresh_run w) else None),
                  spec_list w v) in
     here :: match h with
             | [] => []
